@@ -83,6 +83,10 @@ def mkval(spec):
         return np.void(bytes.fromhex(spec[1]))
     if k == "arr":
         return np.array(spec[1])
+    if k == "barr":
+        return np.array([bytes.fromhex(x) for x in spec[1]])
+    if k == "bool":
+        return bool(spec[1])
     if k == "empty":
         return h5py.Empty("i4")
     if k == "unstorable":
@@ -97,6 +101,12 @@ def token(rng, i: int):
         return ["void", rng.choice(["61", "00", "ff", "7e", "7f00", "007f", "7f7f", "1a"])]
     if r < 0.07:
         return ["unstorable"]
+    if r < 0.14:
+        # values off the beaten track: byte strings that are not UTF-8 / look like the marker, non-ASCII text, booleans, extreme and
+        # negative numbers, 2-D / float / boolean / empty / byte-string arrays
+        return rng.choice([["bytes", "636166e9"], ["bytes", "fffe" + (b"%d" % i).hex()], ["bytes", "7f"], ["bytes", "c328"], ["str", f"h\u00e4\u00df{i}"], ["str", f"\u65e5\u672c{i}"],
+                           ["str", ""], ["bool", True], ["bool", False], ["int", -i - 1], ["int", 2 ** 63 - 1], ["int", -(2 ** 63)], ["float", float("inf")],
+                           ["arr", [[i, 1], [2, 3]]], ["arr", [0.5, i + 0.25]], ["arr", [True, False]], ["arr", []], ["barr", ["61", "6263", "ff"]]])
     if r < 0.35:
         return ["int", 1000 + i]
     if r < 0.55:
